@@ -404,6 +404,9 @@ let io_run_ops file =
                  incr n_open;
                  let agree = (match o, verdict with
                    | Io.Opened _, Accepted | Io.RejectedAt _, Rejected | Io.FreshFile _, Fresh -> true
+                   (* a file shorter than 24 bytes: Open.v says ShortRead (its reader has no zero padding), the byte-level
+                      model follows the crate (zeros beyond the end): not a disagreement between the two for a refusal *)
+                   | Io.RejectedAt _, ShortRead -> true
                    | _ -> false) in
                  (if not agree then begin
                     incr n_open_bad;
@@ -475,6 +478,29 @@ let io_run_ops file =
                    let l = List.remove_assoc (ext, pos) l in
                    let l = if first = nb then l else ((ext, pos), first) :: l in
                    (if l = [] then Hashtbl.remove mutated (d, nm) else Hashtbl.replace mutated (d, nm) l);
+                   "ok"))
+           | "truncfile" ->
+             (* truncfile <dir> <name>.<ext> <len>: a closed file cut to its first <len> bytes; the record-level model does
+                not know short files: the map counts as mutated from here on *)
+             let d = a 1 in
+             (match String.rindex_opt (a 2) '.' with
+              | None -> "skip:truncfile"
+              | Some i ->
+                let nm = String.sub (a 2) 0 i and ext = String.sub (a 2) (i + 1) (String.length (a 2) - i - 1) in
+                let len = int_of_string (a 3) in
+                (match Hashtbl.find_opt disk (d, nm) with
+                 | None -> "skip:truncfile"
+                 | Some st ->
+                   let rec take n l = if n <= 0 then [] else (match l with [] -> [] | x :: r -> x :: take (n - 1) r) in
+                   let chg (f : Io.file) = { f with Io.fb = take len f.Io.fb } in
+                   let st' = (match ext with
+                     | "key" -> { st with Io.s_key = chg st.Io.s_key }
+                     | "val" -> { st with Io.s_val = chg st.Io.s_val }
+                     | "htx" -> { st with Io.s_htx = chg st.Io.s_htx }
+                     | _ -> failwith "truncfile ext") in
+                   Hashtbl.replace disk (d, nm) st';
+                   let l = (try Hashtbl.find mutated (d, nm) with Not_found -> []) in
+                   Hashtbl.replace mutated (d, nm) (((ext, -1), N0) :: l);
                    "ok"))
            | "snap" ->
              render_check (Printf.sprintf "line=%d" !lineno);
